@@ -80,7 +80,8 @@ class C13(PropBase):
             "and then define its alias (x29/fp, x30/lr, r11/fp, r14/lr; 25 in-process runs), 2..4 threads in deep recursion (17 000..40 000 frames "
             "together, stacks synthesised by the harness from deep=) under per-module suspension scripts rotated per run; rendering 0 is the "
             "synchronous one and threads[] must be in thread-list order; frames inside 2..6 overlapping unloaded modules. Q cases: the registers of an arm64 "
-            "CFI caller frame against C13.Cfi.a64_walk; A cases: adaptive walks on one real Symbolizer polled in an explicit schedule against C13.Adaptive.arun. "
+            "CFI caller frame against C13.Cfi.a64_walk; A cases: adaptive walks on one real Symbolizer polled in an explicit schedule against C13.Adaptive.arun; P cases: process_minidump on "
+            "decision-tree dumps against the same model. "
             "R cases: names of the proc_limits array against the model; E: cert_subject per module; L: lsb_release fields, text line, pid, microcode. Non-trivial = at least one thread processed; "
             "distinct = distinct case lines")
     trusted_base = [
@@ -141,7 +142,9 @@ class C13(PropBase):
                 "step run in the poll in which the walk finishes + results by index): c13_process_schedule_independent, c13_process_determined, "
                 "c13_process_budget_refuted; c13_adaptive_modules_json_determined; MultiSymbolProvider::stats merge (c13_multi_provider_stats_order_independent). "
                 "Compared with the real code on generated cases: A (adaptive walks on one real Symbolizer under explicit poll schedules: results, answer logs, "
-                "supplier call order, stats, counters), Q (arm64 CFI caller registers), R / E / L as before. Everything beyond these cores is checked by a direct oracle only: the same input processed "
+                "supplier call order, stats, counters), P (the real processor on synthetic amd64 dumps whose threads ARE decision trees — CFI cell when the module's "
+                "symbols load, frame-pointer cell otherwise — against the adaptive model under round-robin polling: per-thread module sequence, supplier call "
+                "order, stats, counters), Q (arm64 / arm CFI caller registers), R / E / L as before. Everything beyond these cores is checked by a direct oracle only: the same input processed "
                 ">= 13 times in-process (fresh hash seeds; first synchronously, then under three executors with rotated supplier delays / per-module "
                 "suspension counts) must give byte-identical JSON and text with threads[] in thread-list order.",
         "note": "Trusted: Coq kernel; hand-written models (limits renderer correspondence-checked here, Symbolizer model by C12); the oracle is search, not proof. "
